@@ -111,6 +111,25 @@ add("C19", "exploration",
 
 NOT_YET = {}
 
+# additions made after the third round of seeded changes (appended to the descriptions above)
+ROUND3 = {
+    "C01": " Also: one SET @@REPOSITORY switch at a drawn position with same-named tables below the other directory and a probe table that is only read before the switch (must keep bytes, inode, mtime); EXIT through PREPARE/EXECUTE and inside IF/WHILE bodies.",
+    "C04": " Also: sub-checks distinct_group (SELECT DISTINCT over a subset / all / keys+aggregate of the GROUP BY keys) and dtformat_tbl / dtformat_set (key cells written in user-defined @@DATETIME_FORMAT notations, built-in notations and decoys; reference parses user formats first).",
+    "C06": " Also: sub-check tz_spellings - two instants in nine documented datetime spellings compared under a per-case @@TIMEZONE (Tokyo, Los Angeles, Berlin, Kolkata, UTC), expected from Go's time package.",
+    "C07": " Also: sub-check datetime_format - ORDER BY / LIMIT / WITH TIES over keys written in user-defined @@DATETIME_FORMAT notations under per-case @@TIMEZONE, reference instants from a fixed table of (notation, text, instant) triples.",
+    "C08": " Also: aliased targets, failures by a bad name in the target list, table-qualified reads and follow-up UPDATE/DELETE/COMMIT after the failed statement, committed bytes against the row model.",
+    "C11": " Also: CREATE TABLE of a name that differs only in letter case from a table the transaction holds.",
+    "C12": " Also: REPLACE with USING keys that are not unique, occurrences spread over different worker chunks.",
+    "C13": " Also: check lazy - lazily loaded sources (URL tables served by a loopback HTTP server, DATA::, inline tables, STDIN, never-read files) first referenced inside per-record subqueries with cold caches.",
+    "C15": " Also: declarations made through EXECUTE / PREPARE+EXECUTE / SOURCE (also inside loop bodies); sub-check aggregate_args (user-defined aggregates with extra arguments as analytic functions over parallel partitions, closed-form expectation).",
+    "C16": " Also: DISPOSE/CLOSE/re-OPEN of the loop cursor inside WHILE IN bodies, shadowing inner cursors, DISPOSE of fetched variables followed by value-creating expressions and re-reads; runs with poisoned value pool.",
+    "C17": " Also: integer keys beyond 2^53 (distinct integers with equal float64 image) in ORDER BY and PARTITION BY.",
+    "C19": " Also: composed queries (set-operation subqueries over tables of different widths under analytic functions, GROUP BY and outer ORDER BY); sub-check url_tables - the real binary queries a loopback server with 49 (mis)behaviours through 26 table forms; exit code 2 / runtime abort is a violation.",
+    "C20": " Also: tables first loaded under non-default import attributes (no_header through a table object or SET @@NO_HEADER) then upgraded by the first data-changing statement under default attributes: shape and rows must stay those of the first load.",
+}
+for _pid, _t in ROUND3.items():
+    CHECKS[_pid]["text"] += _t
+
 def main():
     props = [json.loads(l)["id"] for l in open(os.path.join(ROOT, "properties.jsonl")) if l.strip()]
     checks = []
